@@ -122,4 +122,8 @@ theorem expand_twice_differs_witness :
 example : expand [(b!"A", b!"x y"), (b!"B", [])] (b!"pre-${A}-$A_$B.${}$") = b!"pre-x y-.$" := by decide
 example : expandSlice [(b!"D", b!" nginx ")] [b!"$D", b!"${NONE}", b!" keep "] = [b!"nginx", b!"keep"] := by decide
 
+/-- the translator regenerated, on this run and from the working tree, every table this property is tied through
+    (when an extraction fails the reviewed table stands in so that the model still compiles, and this stops checking) -/
+theorem translator_tables_regenerated : Generated.extracted_G4Expand = true ∧ Generated.extracted_G5KeyTree = true := by decide
+
 end Nfpm.Props.C16
